@@ -1610,3 +1610,76 @@ def with_tables(harness_text, g, tables_path):
     harness_text = harness_text.replace(marker, loader + '\n' + marker, 1)
     harness_text = harness_text.replace('  VP_INIT_SCANNER();\n', '  VP_INIT_SCANNER();\n  VP_LOAD_TABLES();\n', 1)
     return harness_text, len(data)
+
+
+def stack_harness(g, cfg, spec, npush=27, nsym=4, witness=False):
+    """Start-condition stack: (a) npush pushes with symbolic conditions (past
+    YY_START_STACK_INCR) then as many pops, LIFO order; (b) a short sequence of
+    solver-chosen push/pop/begin operations against an array model; (c) pop of
+    an empty stack reaches the fatal-error hook."""
+    H = [common_head(g, cfg, spec, 1)]
+    H.append('#define VP_NPUSH %d' % npush)
+    H.append('#define VP_NSYM %d' % nsym)
+    if witness:
+        H.append('#define VP_WITNESS 1')
+    H.append(r'''
+unsigned char vpi_val[VP_NPUSH], vpi_op[VP_NSYM], vpi_arg[VP_NSYM];
+int vpi_sc0, vpi_underflow;
+static int vp_model[VP_NPUSH + VP_NSYM + 1], vp_depth;
+
+int main(void) {
+  VP_DECL_SCANNER
+#ifdef REPLAY
+#include "vp_replay_set.inc"
+#else
+  for (int i = 0; i < VP_NPUSH; i++) vpi_val[i] = nondet_uchar();
+  for (int i = 0; i < VP_NSYM; i++) { vpi_op[i] = nondet_uchar(); vpi_arg[i] = nondet_uchar(); }
+  vpi_sc0 = nondet_int(); vpi_underflow = nondet_int();
+#endif
+  VP_ASSUME(vpi_sc0 >= 0 && vpi_sc0 < VP_NSC);
+  VP_ASSUME(vpi_underflow == 0 || vpi_underflow == 1);
+  for (int i = 0; i < VP_NPUSH; i++) VP_ASSUME(vpi_val[i] < VP_NSC);
+  for (int i = 0; i < VP_NSYM; i++) VP_ASSUME(vpi_op[i] <= 2 && vpi_arg[i] < VP_NSC);
+  vp_expect_fatal = 0;
+  VP_INIT_SCANNER();
+  VP_BEGIN(vpi_sc0);
+  int cur = vpi_sc0;
+  /* (b) solver-chosen short history */
+  for (int i = 0; i < VP_NSYM; i++) {
+    if (vpi_op[i] == 0) { vp_model[vp_depth++] = cur; cur = vpi_arg[i]; yy_push_state(vpi_arg[i] VP_A1); }
+    else if (vpi_op[i] == 1) {
+      if (vp_depth == 0) continue;
+      cur = vp_model[--vp_depth]; yy_pop_state(VP_A0);
+    } else { cur = vpi_arg[i]; VP_BEGIN(vpi_arg[i]); }
+    VP_ASSERT(VP_START() == cur, "yystart() reports the condition set by yybegin/yy_push_state/yy_pop_state");
+#ifdef VP_HAS_TOP_STATE
+    if (vp_depth > 0) VP_ASSERT(yy_top_state(VP_A0) == vp_model[vp_depth - 1], "yy_top_state() is the condition a pop would return to");
+#endif
+  }
+  /* (a) deep stack: growth past the initial allocation, then LIFO order */
+  int base = vp_depth;
+  for (int i = 0; i < VP_NPUSH; i++) { vp_model[vp_depth++] = cur; cur = vpi_val[i]; yy_push_state(vpi_val[i] VP_A1); }
+  VP_ASSERT(VP_START() == cur, "condition after the pushes");
+  for (int i = 0; i < VP_NPUSH; i++) {
+    yy_pop_state(VP_A0); cur = vp_model[--vp_depth];
+    VP_ASSERT(VP_START() == cur, "pops return the conditions in reverse order of the pushes");
+  }
+  VP_ASSERT(vp_depth == base, "model depth");
+  while (vp_depth > 0) { yy_pop_state(VP_A0); cur = vp_model[--vp_depth]; }
+  VP_ASSERT(VP_START() == cur, "stack emptied");
+#ifdef VP_WITNESS
+  VP_ASSERT(!(vpi_op[0] == 0 && vpi_op[1] == 1 && vpi_op[2] == 0), "WITNESS: push, pop, push history");
+#endif
+  /* (c) underflow is a reported fatal error */
+  if (vpi_underflow) {
+    vp_expect_fatal = 1;
+    yy_pop_state(VP_A0);
+    VP_ASSERT(0, "popping an empty start-condition stack must not return");
+  }
+  return 0;
+}
+''')
+    txt = '\n'.join(H)
+    if has_name(g, 'yy_top_state'):
+        txt = txt.replace('#define VP_NPUSH', '#define VP_HAS_TOP_STATE 1\n#define VP_NPUSH', 1)
+    return txt
